@@ -126,6 +126,7 @@ build_output = Fn(
         C("output_well_formed", "res is Ok ==> res->Ok_0.wf()", ["C06"]),
         C("no_two_items_share_a_bit", "res is Ok ==> items_disjoint(res->Ok_0.spans@)", ["C06"]),
         C("every_bit_outside_the_items_is_zero", "res is Ok ==> set_bits_inside_items(res->Ok_0.v(), res->Ok_0.spans@)", ["C06"]),
+        C("every_item_sits_at_its_address_inside_its_bank", "res is Ok ==> items_placed(defs, res->Ok_0.spans@)", ["C06", "C01"]),
     ],
     loops={1: Loop(invariant=[
         C("state", "output.wf() && overlap_checker.wf() && all_banks_defined(defs, 0)"),
@@ -133,6 +134,7 @@ build_output = Fn(
         C("sized_items_are_checker_entries", "sized_items_stored(output.spans@, overlap_checker.view())"),
         C("items_disjoint", "items_disjoint(output.spans@)"),
         C("set_bits_inside_items", "set_bits_inside_items(output.v(), output.spans@)"),
+        C("items_placed", "items_placed(defs, output.spans@)"),
     ], body_start="        let ghost spans0 = output.spans@; let ghost view0 = overlap_checker.view(); let ghost chk0 = overlap_checker;",
        body_end="""        proof {
             lemma_stored_mono(view0, overlap_checker.view());
@@ -143,6 +145,7 @@ build_output = Fn(
                 if sp.offset is Some && sp.size > 0 {
                     lemma_inserted_is_stored(view0, overlap_checker.view(), sp.offset->0 as int, sp.size as int);
                     lemma_new_item_disjoint(spans0, &chk0, sp.offset->0 as int, sp.size as int);
+                    assert(placed_in(defs, sp, ctx.bank_ref.0 as int));
                 }
             }
         }""")},
